@@ -68,6 +68,44 @@ def validation(ctx: Ctx):
                                       f"requirement", rp)
 
 
+def ctor_validation(ctx: Ctx):
+    """configurations refused when the aggregator is BUILT (model: `ctorRejects`, theorem `ctor_rejects_iff`)"""
+    def tens(ndim):
+        return torch.ones([2] * ndim) if ndim else torch.tensor(1.0)
+    cases = []
+    for ndim in (None, 0, 1, 2, 3):
+        spec = ["pref", "none" if ndim is None else ndim]
+        for name, cls in (("UPGrad", UPGrad), ("DualProj", DualProj), ("AlignedMTL", AlignedMTL), ("ConFIG", ConFIG)):
+            cases.append((f"{name}(pref_vector ndim={ndim})", spec,
+                          lambda cls=cls, ndim=ndim: cls(pref_vector=None if ndim is None else tens(ndim))))
+        cases.append((f"GradDrop(leak ndim={ndim})", ["graddrop", "none" if ndim is None else ndim],
+                      lambda ndim=ndim: GradDrop(leak=None if ndim is None else tens(ndim) * 0.5)))
+        if ndim is not None:
+            cases.append((f"Constant(weights ndim={ndim})", ["constant", ndim], lambda ndim=ndim: Constant(tens(ndim))))
+    for c in (-1.0, -1e-9, 0.0, 0.5, 3.0):
+        cases.append((f"CAGrad(c={c})", ["cagrad", c < 0], lambda c=c: CAGrad(c=c)))
+    for f in (-2, -1, 0, 1, 3):
+        for k in (-1, 0, 1, 2):
+            cases.append((f"Krum({f},{k})", ["krum", f, k], lambda f=f, k=k: Krum(n_byzantine=f, n_selected=k)))
+    for b in (-3, -1, 0, 1, 4):
+        cases.append((f"TrimmedMean({b})", ["trimmed", b], lambda b=b: TrimmedMean(trim_number=b)))
+    for name, spec, mk in cases:
+        expect = ctx.driver.ask(["ctor", ["spec", *spec]]) == "true"
+        try:
+            mk()
+            st, out = "ok", None
+        except Exception as e:  # noqa: BLE001
+            st, out = "err", classify_exc(e)
+        ctx.case(("ctor", name), nontrivial=True)
+        ctx.count("ctor_expected", "reject" if expect else "accept")
+        rp = {"check": "constructor validation", "configuration": name, "implementation": [st, out], "model_rejects": expect}
+        if expect and not (st == "err" and out == "ValueError"):
+            ctx.violation(f"{name} must be refused with ValueError at construction; got "
+                          + (f"{out}" if st == "err" else "an aggregator"), rp)
+        if not expect and st != "ok":
+            ctx.violation(f"{name} is a legal configuration but the constructor raised {out}", rp)
+
+
 # ------------------------------------------------------------------------------ totality / purity / homogeneity
 def prefs_for(spec, m):
     if spec.pref is None:
@@ -234,6 +272,7 @@ def homogeneity(ctx: Ctx, spec, dtype):
 def main(ctx: Ctx):
     ctx.lean_gate()
     validation(ctx)
+    ctor_validation(ctx)
     cat = catalogue()
     n = 25 if ctx.tier == "quick" else 3000
     for i in range(n):
@@ -247,7 +286,8 @@ def main(ctx: Ctx):
                            "reproducibility are runtime/floating-point facts: OBSERVED on the implementation, not proved")
     return ctx.finish(
         rule="(a) validation decision table: every aggregator configuration x shapes (0-d,1-d,3-d, m=1, n=1, m>n) x "
-             "{finite, nan, inf, -inf} compared with the Lean table `rejects`; (b) totality: 15 aggregators x matrix kinds "
+             "{finite, nan, inf, -inf} compared with the Lean table `rejects`, and every constructor argument check compared "
+             "with `ctorRejects`; (b) totality: 15 aggregators x matrix kinds "
              "(gauss, rank-deficient, zero/duplicate rows, zero, scales 1e-12..1e15 f32 / 1e-100..1e100 f64): finite "
              "output of shape (n,), same dtype, input unchanged, same result after unrelated calls / on a fresh instance "
              "/ with the same seed; (c) homogeneity A(tJ) = tA(J) for t = 2^k (exact scaling), |k| up to 40 (f32) / 300 (f64)",
